@@ -2466,6 +2466,11 @@ func compDefineX(sc *scope, n *node) error {
 		} else {
 			index = sc.add(t)
 			sc.sym[id] = &symbol{index: index, kind: varSym, typ: t}
+			if sc.global {
+				// A package level variable, as if defined by a single value declaration in GTA.
+				sc.sym[id].global = true
+				sc.sym[id].node = n
+			}
 		}
 		n.child[i].typ = t
 		n.child[i].findex = index
@@ -2554,67 +2559,107 @@ func getVars(n *node) (vars []*node) {
 	return vars
 }
 
-func genGlobalVarDecl(nodes []*node, sc *scope) (*node, error) {
+func genGlobalVarDecl(nodes []*node, _ *scope) (*node, error) {
 	varNode := &node{kind: varDecl, action: aNop, gen: nop}
 
+	isVar := make(map[*node]bool, len(nodes))
+	for _, n := range nodes {
+		isVar[n] = true
+	}
 	deps := map[*node][]*node{}
 	for _, n := range nodes {
-		deps[n] = getVarDependencies(n, sc)
+		for _, d := range getVarDependencies(n) {
+			if isVar[d] {
+				deps[n] = append(deps[n], d)
+			}
+		}
 	}
 
+	// Package initialization (Go spec): repeatedly initialize the earliest variable
+	// in declaration order which has no uninitialized dependency.
 	inited := map[*node]bool{}
-	revisit := []*node{}
-	for {
-		for _, n := range nodes {
+	rest := append([]*node{}, nodes...)
+	for len(rest) > 0 {
+		next := -1
+		for i, n := range rest {
 			canInit := true
 			for _, d := range deps[n] {
 				if !inited[d] {
 					canInit = false
+					break
 				}
 			}
-			if !canInit {
-				revisit = append(revisit, n)
-				continue
+			if canInit {
+				next = i
+				break
 			}
-
-			varNode.child = append(varNode.child, n)
-			inited[n] = true
 		}
-
-		if len(revisit) == 0 || equalNodes(nodes, revisit) {
-			break
+		if next < 0 {
+			return nil, rest[0].cfgErrorf("variable definition loop")
 		}
-
-		nodes = revisit
-		revisit = []*node{}
+		n := rest[next]
+		varNode.child = append(varNode.child, n)
+		inited[n] = true
+		rest = append(rest[:next], rest[next+1:]...)
 	}
 
-	if len(revisit) > 0 {
-		return nil, revisit[0].cfgErrorf("variable definition loop")
-	}
 	wireChild(varNode)
 	return varNode, nil
 }
 
-func getVarDependencies(nod *node, sc *scope) (deps []*node) {
-	nod.Walk(func(n *node) bool {
-		if n.kind != identExpr {
+// getVarDependencies returns the declarations of the global variables which the
+// initialization expressions of nod refer to, directly or through the bodies of the
+// functions and methods they refer to.
+func getVarDependencies(nod *node) (deps []*node) {
+	// Only the initialization expressions are considered, not the defined names.
+	var exprs []*node
+	switch nod.kind {
+	case defineStmt:
+		exprs = nod.child[len(nod.child)-nod.nright:]
+	case defineXStmt:
+		exprs = nod.child[len(nod.child)-1:]
+	}
+
+	seen := map[*node]bool{} // Function declarations already visited.
+	var walk func(n *node) bool
+	visitFunc := func(fn *node) {
+		if fn == nil || fn.kind != funcDecl || seen[fn] || len(fn.child) < 4 {
+			return
+		}
+		seen[fn] = true
+		fn.child[3].Walk(walk, nil)
+	}
+	walk = func(n *node) bool {
+		switch n.kind {
+		case selectorExpr:
+			// A method value or a method call refers to the method.
+			if m, ok := n.val.(*node); ok && n.action == aGetMethod {
+				visitFunc(m)
+			}
 			return true
-		}
-		// Process ident nodes, and avoid false dependencies.
-		if n.anc.kind == selectorExpr && childPos(n) == 1 {
+		case identExpr:
+			// Use the symbol resolved in the scope of the identifier, to avoid
+			// false dependencies on shadowed global variables.
+			if n.anc.kind == selectorExpr && childPos(n) == 1 {
+				return false
+			}
+			sym := n.sym
+			if sym == nil {
+				return false
+			}
+			switch {
+			case sym.kind == varSym && sym.global && sym.node != nil:
+				deps = append(deps, sym.node)
+			case sym.kind == funcSym:
+				visitFunc(sym.node)
+			}
 			return false
 		}
-		sym, _, ok := sc.lookup(n.ident)
-		if !ok {
-			return false
-		}
-		if sym.kind != varSym || !sym.global || sym.node == nod {
-			return false
-		}
-		deps = append(deps, sym.node)
-		return false
-	}, nil)
+		return true
+	}
+	for _, e := range exprs {
+		e.Walk(walk, nil)
+	}
 	return deps
 }
 
